@@ -61,11 +61,13 @@ func Maintain(t *rapid.T, ops []Op, typeOf func(id string) int, otherSink string
 		over := def
 		over.IDs = append([]string(nil), def.IDs...)
 		over.IDs[len(over.IDs)-1] = otherSink
-		if ri > 0 {
-			first := ops[regs[0]]
-			ins = []Op{{K: "rmpipe", ET: first.ET, P: first.P}, over}
-		} else {
-			ins = []Op{over}
+		ins = []Op{over}
+		for _, j := range regs[:ri] {
+			if ops[j].ET == def.ET && ops[j].P != def.P {
+				// the earliest other pipeline of the same event type goes first
+				ins = []Op{{K: "rmpipe", ET: ops[j].ET, P: ops[j].P}, over}
+				break
+			}
 		}
 	default:
 		bad := def
